@@ -603,10 +603,28 @@ def op_let(w, ins):
         ok, v = call(w, lambda f, dd_: f.let(**dd_), a.ref, d)
     else:
         return 'skip'
-    del d
     take_result(w, m, ok, v, want, 'C04', ins.get('keep', True), f'let[{kind}/{how}]')
+    del v
     if w.den(m, a.ref) != before:
         w.fail('I-den', 'operand of let changed', owner_tags(w, 'C04'))
+    if ins.get('reuse') is not None and how in ('let', 'direct'):
+        # the caller uses the very same definitions object for a second
+        # operand, as in `defs = {...}; let(defs, u1); let(defs, u2)`
+        b = w.pick(ins['reuse'], m)
+        if kind == 'bool':
+            want2 = b.tt
+            for k, val in pairs:
+                want2 = T.cof(want2, k, 1 if val else 0)
+        elif kind == 'fn':
+            want2 = T.compose(b.tt, subs)
+        else:
+            want2 = T.rename(b.tt, ren)
+        if how == 'let':
+            ok, v = call(w, g.api.let, d, b.ref)
+        else:
+            ok, v = call(w, fn, b.ref, d)
+        take_result(w, m, ok, v, want2, 'C04', False, f'let[{kind}/{how}] with the same definitions object on a second operand')
+    del d
 
 
 def op_cube(w, ins):
